@@ -1,8 +1,271 @@
+/-
+  C18 — line-protocol ops of the P2P message model.
+
+  Text form of a message (mirror: harness/props/c18.py), fields separated by one space:
+    version <ver> <services> <time> <addr> <addr|-> <nonce|-> <subverhex|-> <height|-> <relay>
+    verack | getaddr | mempool
+    addr <addr,addr,…>                    addr := protover:time:services:iphex:port
+    alert <msghex> <sighex>
+    inv|getdata|notfound <inv,inv,…>      inv  := type:hashhex
+    getblocks|getheaders <ver> <hash,hash,…> <hashstophex>
+    headers <header/header/…>             header, tx, block as in Driver/TxFmt.lean
+    tx <tx>      block <block>
+    ping|pong <nonce>
+    reject <messagehex> <ccodehex> <reasonhex>
+  Ops:
+    c18.frame  <chain> <msg>        → `W:`|`O:` then hex of to_bytes() | err:<family>; W = the message is in the
+                                      property's domain (WFMsg and a payload ≤ MAX_SIZE), O = outside
+    c18.spec.frame <chain> <msg>    → hex of Spec.Msg.frameMsg
+    c18.parse  <chain> <hexstream>  → `pos@msg@reframe~…` then `~eof` or `~err:<family>@pos`;
+                                      `pos` = stream position after the call, msg = `none` for an
+                                      unknown command, reframe = same | diff | err:<family>: whether
+                                      to_bytes() of the parsed message equals the bytes consumed
+                                      an error raised inside msg_deser is `err:<family>@pos@payload`
+    c18.frombytes <chain> <hex>     → `W:`|`O:` then msg | none | err:<family>   (W = canonical frame of the
+                                      message returned, or a frame-level rejection; O = anything else)
+    c18.magic  <chain>              → hex
+    c18.hist   <step> <step> …      → outputs of the steps joined by `~` (see "histories" below)
+-/
 import Driver.Util
+import Driver.TxFmt
+import BtcVerif.Model.Messages
+import BtcVerif.Spec.Chain
 
 namespace Driver.C18
-open BtcVerif Driver
+open BtcVerif Driver Driver.TxFmt
 
-def handle (_op : String) (_args : List String) : Option String := none
+def parseAddr? (s : String) : Option NetAddr :=
+  match s.splitOn ":" with
+  | [pv, t, sv, ip, port] => do
+      let pv ← parseNat? pv; let t ← parseNat? t; let sv ← parseNat? sv
+      let ip ← parseHex? ip; let port ← parseNat? port
+      pure { protover := pv, nTime := t, nServices := sv, ip := ip, port := port }
+  | _ => none
+
+def showAddr (a : NetAddr) : String :=
+  s!"{a.protover}:{a.nTime}:{a.nServices}:{toHex a.ip}:{a.port}"
+
+def parseInv? (s : String) : Option Inv :=
+  match s.splitOn ":" with
+  | [t, h] => do
+      let t ← parseInt? t; let h ← parseHex? h
+      pure { type := t, hash := h }
+  | _ => none
+
+def showInv (i : Inv) : String := s!"{i.type}:{toHex i.hash}"
+
+def parseOpt? {α} (p : String → Option α) (s : String) : Option (Option α) :=
+  if s == "-" then some none else (p s).map some
+
+def showOpt {α} (f : α → String) : Option α → String
+  | some x => f x
+  | none => "-"
+
+def parseMsg? (s : String) : Option Msg :=
+  match s.splitOn " " with
+  | ["version", ver, sv, t, to, fr, nonce, sub, height, relay] => do
+      let ver ← parseInt? ver; let sv ← parseNat? sv; let t ← parseInt? t
+      let to ← parseAddr? to; let fr ← parseOpt? parseAddr? fr
+      let nonce ← parseOpt? parseNat? nonce; let sub ← parseOpt? parseHex? sub
+      let height ← parseOpt? parseInt? height; let relay ← parseNat? relay
+      pure (.version { nVersion := ver, nServices := sv, nTime := t, addrTo := to, addrFrom := fr,
+                       nNonce := nonce, strSubVer := sub, nStartingHeight := height, fRelay := relay })
+  | ["verack"] => some .verack
+  | ["getaddr"] => some .getaddr
+  | ["mempool"] => some .mempool
+  | ["addr", as] => (splitList as ',').mapM parseAddr? |>.map Msg.addr
+  | ["alert", m, sg] => do
+      let m ← parseHex? m; let sg ← parseHex? sg
+      pure (.alert m sg)
+  | ["inv", l] => (splitList l ',').mapM parseInv? |>.map Msg.inv
+  | ["getdata", l] => (splitList l ',').mapM parseInv? |>.map Msg.getdata
+  | ["notfound", l] => (splitList l ',').mapM parseInv? |>.map Msg.notfound
+  | ["getblocks", v, hs, stop] => do
+      let v ← parseInt? v; let hs ← parseHexList? hs; let stop ← parseHex? stop
+      pure (.getblocks { nVersion := v, vHave := hs } stop)
+  | ["getheaders", v, hs, stop] => do
+      let v ← parseInt? v; let hs ← parseHexList? hs; let stop ← parseHex? stop
+      pure (.getheaders { nVersion := v, vHave := hs } stop)
+  | ["headers", hs] => (splitList hs '/').mapM parseHeader? |>.map Msg.headers
+  | ["tx", t] => (parseTx? t).map Msg.tx
+  | ["block", b] => (parseBlock? b).map Msg.block
+  | ["ping", n] => (parseNat? n).map Msg.ping
+  | ["pong", n] => (parseNat? n).map Msg.pong
+  | ["reject", m, c, r] => do
+      let m ← parseHex? m; let c ← parseHex? c; let r ← parseHex? r
+      pure (.reject m c r)
+  | _ => none
+
+def showInvs (l : List Inv) : String := ",".intercalate (l.map showInv)
+
+def showMsg : Msg → String
+  | .version v =>
+      s!"version {v.nVersion} {v.nServices} {v.nTime} {showAddr v.addrTo} {showOpt showAddr v.addrFrom} " ++
+      s!"{showOpt toString v.nNonce} {showOpt toHex v.strSubVer} {showOpt toString v.nStartingHeight} {v.fRelay}"
+  | .verack => "verack"
+  | .getaddr => "getaddr"
+  | .mempool => "mempool"
+  | .addr as => "addr " ++ ",".intercalate (as.map showAddr)
+  | .alert m sg => s!"alert {toHex m} {toHex sg}"
+  | .inv l => "inv " ++ showInvs l
+  | .getdata l => "getdata " ++ showInvs l
+  | .notfound l => "notfound " ++ showInvs l
+  | .getblocks loc stop => s!"getblocks {loc.nVersion} {",".intercalate (loc.vHave.map toHex)} {toHex stop}"
+  | .getheaders loc stop => s!"getheaders {loc.nVersion} {",".intercalate (loc.vHave.map toHex)} {toHex stop}"
+  | .headers hs => "headers " ++ "/".intercalate (hs.map showHeader)
+  | .tx t => "tx " ++ showTx t
+  | .block b => "block " ++ showBlock b
+  | .ping n => s!"ping {n}"
+  | .pong n => s!"pong {n}"
+  | .reject m c r => s!"reject {toHex m} {toHex c} {toHex r}"
+
+def magicOf? (chain : String) : Option Bytes :=
+  (Spec.chainByName? chain).map (fun p => p.messageStart.map UInt8.ofNat)
+
+/-- header, declared length and checksum of the first frame of `s` pass `stream_deserialize`'s tests -/
+def frameAccepted (magic s : Bytes) : Bool :=
+  let n := Model.Msg.declaredLen s
+  decide (24 ≤ s.length) && s.take 4 == magic && decide (n ≤ Model.Wire.MAX_SIZE) &&
+    decide (24 + n ≤ s.length) && (s.drop 20).take 4 == Model.Msg.checksum ((s.drop 24).take n)
+
+/-- "field values the protocol version carries", with a payload the length field and `ser_read` can honour -/
+def inDomain (m : Msg) : Bool :=
+  decide (Spec.Msg.WFMsg m) && decide ((Spec.Msg.payload m).length ≤ Spec.Wire.maxSize)
+
+/-- the `while f.tell() < len(data)` loop of the harness, with positions -/
+def parseLoop (magic : Bytes) (total : Nat) : Nat → Bytes → List String → List String
+  | 0, _, acc => ("eof" :: acc).reverse
+  | fuel + 1, s, acc =>
+    if s.isEmpty then ("eof" :: acc).reverse
+    else
+      match Model.Msg.streamDeserialize magic s with
+      | (.ok m, r) =>
+          let consumed := s.take (s.length - r.length)
+          let txt := match m with
+            | some m =>
+                let re := match Model.Msg.toBytes magic m with
+                  | .ok b => if b = consumed then "same" else "diff"
+                  | .error e => "err:" ++ e.family
+                showMsg m ++ "@" ++ re
+            | none => "none@-"
+          parseLoop magic total fuel r (s!"{total - r.length}@{txt}" :: acc)
+      | (.error e, r) =>
+          -- an error raised inside msg_deser (header, length and checksum were accepted) is marked:
+          -- the property does not say how a well-framed but malformed payload is treated
+          let tag := if frameAccepted magic s then "@payload" else ""
+          (s!"err:{e.family}@{total - r.length}{tag}" :: acc).reverse
+
+/-! ### histories: one case = a sequence of steps on named message values, streams and the chain
+
+  The model has value semantics: a register holds the CURRENT field values, the chain is the CURRENT
+  chain; nothing else survives from one step to the next.  Steps (one per argument):
+    C <chain>                      SelectParams
+    N <reg>#<msg>#<variant>        a new message object with these field values
+    E <reg>#<edit>#<msg>           an in-place edit of the live object; <msg> = the field values after it
+    F <reg>                        to_bytes()                          → hex | err:<family> | noreg
+    S <sid> <reg>*                 a new stream holding the frames of these registers → len=<n>
+    A <sid> <reg>                  append the frame of <reg> to the stream (position kept) → len=<n>
+    P <sid> <reg>                  stream_deserialize on the stream; the message goes to <reg>
+                                   → pos@msg | pos@none | err:<family>@pos
+-/
+
+structure HState where
+  magic : Bytes
+  regs : List (String × Msg)
+  streams : List (String × Nat × Bytes)      -- bytes written so far, bytes not yet read
+  out : List String
+
+def setKey {α} (k : String) (v : α) (l : List (String × α)) : List (String × α) :=
+  (k, v) :: l.filter (fun p => p.1 != k)
+
+def frameOf (st : HState) (r : String) : Option (Res Bytes) :=
+  (st.regs.lookup r).map (Model.Msg.toBytes st.magic)
+
+def histStep (st : HState) (step : String) : Option HState :=
+  match step.splitOn "#" with
+  | [hd, a, b] =>
+      (match hd.splitOn " " with
+       | ["N", r] => (parseMsg? a).map (fun m => { st with regs := setKey r m st.regs })
+       | ["E", r] => (parseMsg? b).map (fun m => { st with regs := setKey r m st.regs })
+       | _ => none)
+  | [hd] =>
+      (match hd.splitOn " " with
+       | ["C", ch] => (magicOf? ch).map (fun m => { st with magic := m })
+       | ["F", r] =>
+           let o := match frameOf st r with
+             | none => "noreg"
+             | some res => Res.render (res.map toHex)
+           some { st with out := o :: st.out }
+       | "S" :: sid :: rs =>
+           let bytes := rs.foldl (fun acc r => match frameOf st r with
+             | some (.ok b) => acc ++ b
+             | _ => acc) []
+           some { st with streams := setKey sid (bytes.length, bytes) st.streams,
+                          out := s!"len={bytes.length}" :: st.out }
+       | ["A", sid, r] =>
+           (match st.streams.lookup sid, frameOf st r with
+            | some (tot, rem), some (.ok b) =>
+                some { st with streams := setKey sid (tot + b.length, rem ++ b) st.streams,
+                               out := s!"len={b.length}" :: st.out }
+            | _, _ => some { st with out := "len=0" :: st.out })
+       | ["P", sid, r] =>
+           (match st.streams.lookup sid with
+            | none => some { st with out := "nostream" :: st.out }
+            | some (tot, rem) =>
+                match Model.Msg.streamDeserialize st.magic rem with
+                | (.ok (some m), rest) =>
+                    some { st with streams := setKey sid (tot, rest) st.streams, regs := setKey r m st.regs,
+                                   out := s!"{tot - rest.length}@{showMsg m}" :: st.out }
+                | (.ok none, rest) =>
+                    some { st with streams := setKey sid (tot, rest) st.streams,
+                                   out := s!"{tot - rest.length}@none" :: st.out }
+                | (.error e, rest) =>
+                    some { st with streams := setKey sid (tot, rest) st.streams,
+                                   out := s!"err:{e.family}@{tot - rest.length}" :: st.out })
+       | _ => none)
+  | _ => none
+
+def hist (steps : List String) : Option String := do
+  let init : HState := { magic := (magicOf? "mainnet").getD [], regs := [], streams := [], out := [] }
+  let st ← steps.foldlM histStep init
+  pure ("~".intercalate st.out.reverse)
+
+def handle (op : String) (args : List String) : Option String :=
+  match op, args with
+  | "c18.hist", steps => some ((hist steps).getD badArgs)
+  | "c18.frame", [chain, msg] => some <|
+      match magicOf? chain, parseMsg? msg with
+      | some magic, some m =>
+          (if inDomain m then "W:" else "O:") ++ Res.render ((Model.Msg.toBytes magic m).map toHex)
+      | _, _ => badArgs
+  | "c18.spec.frame", [chain, msg] => some <|
+      match magicOf? chain, parseMsg? msg with
+      | some magic, some m => toHex (Spec.Msg.frameMsg magic m)
+      | _, _ => badArgs
+  | "c18.payload", [msg] => some <|
+      match parseMsg? msg with
+      | some m => Res.render ((Model.Msg.msgSer m).map toHex)
+      | _ => badArgs
+  | "c18.parse", [chain, hex] => some <|
+      match magicOf? chain, parseHex? hex with
+      | some magic, some s => "~".intercalate (parseLoop magic s.length s.length s [])
+      | _, _ => badArgs
+  | "c18.frombytes", [chain, hex] => some <|
+      match magicOf? chain, parseHex? hex with
+      | some magic, some s =>
+          (match Model.Msg.fromBytes magic s with
+           | .ok (some m) =>
+               let canonical := match Model.Msg.toBytes magic m with
+                 | .ok b => b == s.take b.length
+                 | .error _ => false
+               (if canonical then "W:" else "O:") ++ showMsg m
+           | .ok none => "O:none"
+           | .error e => (if frameAccepted magic s then "O:" else "W:") ++ "err:" ++ e.family)
+      | _, _ => badArgs
+  | "c18.magic", [chain] => some <|
+      match magicOf? chain with
+      | some m => toHex m
+      | none => badArgs
+  | _, _ => none
 
 end Driver.C18
